@@ -598,6 +598,26 @@ def run(ctx):
     if n17 == 0:
         r.vacuous_ok = True
 
+    # ---------------------------------------------------------------- R18
+    r = ctx.rule("C18-R18", "OWNER", "'an invalid line costs one attempt' - once: wrapping a stream in an input stream does not move it - no reachable statement of the constructor "
+                 "of StreamInputStream seeks, reads or truncates the stream it is given (a second wrapper over a partly read stream would serve consumed lines again)", reference=1)
+    sic = ctx.cls("clikit.io.input_stream.stream_input_stream.StreamInputStream")
+    sinit = sic.methods.get("__init__")
+    if sinit is None:
+        r.vacuous_ok = True
+    else:
+        scfg = ctx.cfg(sinit)
+        live = scfg.reach([scfg.entry.id])
+        prm_s = [a for a in sinit.params if a != "self"]
+        moved = [c for c in q.calls(sinit) if isinstance(c.func, ast.Attribute) and c.func.attr in ("seek", "read", "readline", "truncate", "write") and
+                 ((isinstance(c.func.value, ast.Name) and c.func.value.id in prm_s) or is_self_attr(c.func.value)) and any(n.id in live for n in scfg.nodes_of(c))]
+        if moved:
+            r.fail(sinit, moved[0], "%s in the constructor" % norm(moved[0]), "%s moves the stream it wraps (%s): building another input stream over a stream that was already partly read rewinds it - lines "
+                   "that were consumed are served again (extra errors, extra attempts, end of input never reached)" % (sinit.short, norm(moved[0])))
+        else:
+            dead = [c for c in q.calls(sinit) if isinstance(c.func, ast.Attribute) and c.func.attr in ("seek", "read", "readline", "truncate", "write")]
+            r.ok("%s leaves the stream where it is%s" % (sinit.short, " (%s is unreachable: its guard is constant-false)" % norm(dead[0]) if dead else ""))
+
     return ctx.results
 
 
